@@ -18,7 +18,7 @@ META = {
     "id": "C18",
     "technique": "Coq proof (induction over tick histories; per-style variants and invariants; finite obligations over tables regenerated from the source) + extracted-model correspondence with the real LCD object and with the emitted C++ animation helpers run under the mock core + trace oracle",
     "level_text": "Theorems C18_* (coq/Props/C18.v) are proved for all texts, widths >= 1, speeds, loop flags and all tick-time sequences about Gallina transcriptions of LCD.animate/LCD.tick and of the four __redu_lcd_start_*/__redu_lcd_tick_* template pairs plus the tick-injection rule, and (C18_tables_complete) about the style/helper tables and helper texts re-read from emitter.py, parser.py and LCD.py on every run; the models are run side by side with the real host object (buffer assignments and every _AnimationState field after each tick) and with the compiled firmware (cell writes and DDRAM dump per loop() pass).",
-    "level_note": "Trusted: Coq kernel, extraction, OCaml driver, the mock LiquidCrystal/LiquidCrystal_I2C (cursor-addressed DDRAM) and its virtual millis(), g++. The theorems are about the models; the correspondence bounds their distance from LCD.py / emitter.py. Tick injection is proved only for animate calls placed before the main loop (an animate inside `while True:` is never ticked: known finding).",
+    "level_note": "Trusted: Coq kernel, extraction, OCaml driver, the mock LiquidCrystal/LiquidCrystal_I2C (cursor-addressed DDRAM) and its virtual millis(), g++. The theorems are about the models; the correspondence bounds their distance from LCD.py / emitter.py. Tick injection is proved only for animate calls placed before the main loop (an animate inside `while True:` is never ticked: known finding); before the main loop it is proved for call sites at any depth inside if/elif/else, while, for and try/except bodies (Device/DLCDInject.v: the parser's name collection and the emitter's registration walk as two recursive walks over statement trees, C18_nested_*).",
     "design_ref": "DESIGN.md section 4 C18 (and C05 for tick injection)",
 }
 
@@ -215,6 +215,12 @@ def host_oracle(ctx, c, r, stats):
     if r["new"] != "ok":
         ctx.fail("LCD() raised for a positive geometry", c, "object", r["new"], key="host-new")
         return
+    for x in r.get("cross", []):
+        # several displays: each object's animations live on that object only (a frame of display A's animation on
+        # display B occupies a row that is not 'the animation's row'; B's own steps must not depend on A's ticks)
+        ctx.fail(f"an operation on one display ({x['by']}) changed the {x['changed']} display's buffer / animation states", c,
+                 x["before"], x["after"], key="host-cross-display")
+        return
     valid = []
     foreign = False
     for a, ra in zip(c["anims"], r["animate"]):
@@ -263,12 +269,23 @@ def host_oracle(ctx, c, r, stats):
             ctx.fail("LCD.tick called a sleep function (must not block)", c, 0, rt["sleeps"], key="host-tick-sleeps")
             return
         cur = rt["snap"]
+        interleaved = bool(rt.get("pre"))
+        if interleaved:
+            prev = rt["pre"]            # the script's own line/write/clear calls came before this tick
         for ev in rt["events"]:
             if ev[0] not in anim_rows or len(ev[1]) != cols:
                 ctx.fail("tick wrote outside the animations' rows / not exactly the display width", c, [sorted(anim_rows), cols], ev, key="host-geometry")
                 return
         if len(cur["buffer"]) != rows or any(len(x) != cols for x in cur["buffer"]):
             ctx.fail("buffer shape changed", c, [rows, cols], cur["buffer"], key="host-buffer-shape")
+            return
+        if len(cur["states"]) != n or len(prev["states"]) != n:
+            if c.get("between"):
+                # the script's own calls changed the set of animations: what they may do to it is not C18's subject
+                stats["host_interleaved_cases_with_changed_registry"] = stats.get("host_interleaved_cases_with_changed_registry", 0) + 1
+                return
+            ctx.fail("a tick changed the number of animations of the display (a vanished animation never steps again, an extra one draws frames nobody started)",
+                     hcut(c, k), n, [len(prev["states"]), len(cur["states"])], key="host-registry")
             return
         for r_i in range(rows):
             if r_i not in anim_rows and cur["buffer"][r_i] != prev["buffer"][r_i]:
@@ -300,7 +317,7 @@ def host_oracle(ctx, c, r, stats):
                 if not loop and nsteps_seen[i] > bound(len(text), cols):
                     ctx.fail("non-looping animation still stepping after len+2*cols+2 steps", c, bound(len(text), cols), nsteps_seen[i], key="host-termination")
                     return
-                if n == 1:
+                if n == 1 and not interleaved and not c.get("between"):
                     ok = step_relation_ok(style, text, cols, prev["buffer"][row], cur["buffer"][row], nsteps_seen[i])
                     if ok is False:
                         ctx.fail("a step did not advance the animation by exactly one frame", c, prev["buffer"][row], cur["buffer"][row], key="host-one-step")
@@ -369,6 +386,12 @@ def gen_host_cases(ctx):
         nows = tick_times(kind, speed, n_due, rng, cap=900)
         cases.append({"cols": cols, "rows": rows, "i2c": j % 2 == 1, "anims": [[style, row, text, speed, loop]],
                       "nows": nows, "tick_kw": j % 5 == 0, "tag": f"grid:{kind}"})
+        if j % 9 == 4:
+            # a second display with the same geometry running an animation of the SAME style on the SAME row (same
+            # registry key), with another text/speed/loop flag, ticked between two of every three of the main ticks
+            cases[-1]["peer"] = {"cols": cols, "rows": rows, "anims": [[style, row, mk_text(max(1, n // 2 + 1), salt=j + 5), [0, 1, 100][(j // 9) % 3], not loop]],
+                                 "tick_before": [k for k in range(len(nows)) if k % 3 != 1]}
+            cases[-1]["tag"] += ":two-displays"
     # speeds outside the boundary set, negative speeds (host clamps to 0), spaced / non-ASCII texts, mixed schedules
     extra_texts = ["", "a", "   ", "Hi there", "héllo wörld ✓", "漢字かな", "  lead", "x" * 45]
     for j in range(120 if thorough else 40):
@@ -393,6 +416,32 @@ def gen_host_cases(ctx):
             anims.append([st, row, mk_text(rng.choice(len_classes(cols)), salt=j + len(anims)), rng.choice([0, unit, unit, 1, 3, 100, -2]), rng.random() < 0.5])
         nows = tick_times(["mixed", "burst"][j % 2], unit, 40, rng, cap=200)
         cases.append({"cols": cols, "rows": rows, "i2c": False, "anims": anims, "nows": nows, "tag": "multi"})
+        if j % 2 == 0:
+            # a second display alive in the same process: created first, its animations started before and after the
+            # main display's, ticked in between the main display's ticks (two of every three) - "one or more displays"
+            pcols, prows = rng.choice([2, 8, 16, cols]), rng.choice([1, 2, 4])
+            panims = [[rng.choice(STYLES), rng.randrange(prows), mk_text(rng.choice(len_classes(pcols)), salt=j + 40 + q),
+                       rng.choice([0, unit, 1, 100]), rng.random() < 0.5] for q in range(rng.randint(1, 3))]
+            cases[-1]["peer"] = {"cols": pcols, "rows": prows, "anims": panims, "tick_before": [k for k in range(len(nows)) if k % 3 != 2]}
+            cases[-1]["tag"] = "multi:two-displays"
+    # the script's own LCD calls between ticks (line on the animation's row / on another row, write, clear): tick still
+    # never raises, keeps to its rows and its schedule (oracle only: the animation models hold no line/write/clear)
+    for j in range(48 if thorough else 24):
+        style = STYLES[j % 4]
+        cols = [3, 8, 16][(j // 4) % 3]
+        rows = 2
+        row = (j // 2) % 2
+        loop = j % 2 == 0
+        speed = [0, 1, 100][(j // 8) % 3]
+        text = mk_text([1, cols - 1, cols + 2][(j // 3) % 3], salt=j)
+        nows = tick_times(["mixed", "burst", "ontime"][j % 3], speed, min(bound(len(text), cols) + 2, 40), rng, cap=200)
+        between = {}
+        for k in range(len(nows)):
+            if rng.random() < 0.3:
+                between[str(k)] = [rng.choice([["line", row, "xy"], ["line", 1 - row, "other row"], ["write", 1, row, "Q"], ["clear"],
+                                               ["line", row, "W" * (cols + 3)]]) for _ in range(rng.randint(1, 2))]
+        cases.append({"cols": cols, "rows": rows, "i2c": j % 2 == 1, "anims": [[style, row, text, speed, loop]], "nows": nows,
+                      "between": between, "tag": "interleaved-calls"})
     # geometry rejected by the constructor; tick with now = 0 (tick() without argument)
     cases.append({"cols": 0, "rows": 2, "i2c": False, "anims": [], "nows": [], "tag": "bad-geometry"})
     cases.append({"cols": 16, "rows": 0, "i2c": False, "anims": [], "nows": [], "tag": "bad-geometry"})
@@ -414,7 +463,7 @@ def run_host(ctx, stats):
     model = ctx.model([host_model_case(c) for c in cases]) if ctx.exe else [None] * len(cases)
     nontrivial = set()
     for c, r, m in zip(cases, impl, model):
-        if m is not None:
+        if m is not None and not c.get("between"):
             host_compare(ctx, c, m, r)
         if host_in_guard(c):
             host_oracle(ctx, c, r, stats)
@@ -457,8 +506,48 @@ BUSY_PRE = ["k = 0"]
 BUSY_LOOP = ["k = k + 1", "if k > 3:", "    k = 0", "for q in range(2):", "    k = k + 0"]
 
 
+WRAPS = [None, "if", "else", "elif", "for", "while", "try", "nested"]
+
+
+def wrap_lines(calls, mode, uid):
+    """the animate calls of one display placed inside a block whose body runs exactly once at run time (the
+    conditions read run-time variables: nothing is folded), so the model of the display is the same as for calls at
+    top level: `one` is 1, `w<uid>` a fresh counter"""
+    ind = lambda ls, n=1: ["    " * n + x for x in ls]
+    if not mode or not calls:
+        return list(calls)
+    if mode == "if":
+        return ["if one == 1:"] + ind(calls)
+    if mode == "else":
+        return ["if one == 0:", "    one = 0", "else:"] + ind(calls)
+    if mode == "elif":
+        return ["if one == 0:", "    one = 0", "elif one == 1:"] + ind(calls) + ["else:", "    one = 1"]
+    if mode == "for":
+        return ["for q%d in range(one):" % uid] + ind(calls)
+    if mode == "while":
+        return ["w%d = 0" % uid, "while w%d < 1:" % uid] + ind(calls) + ["    w%d = w%d + 1" % (uid, uid)]
+    if mode == "try":
+        return ["try:"] + ind(calls) + ["except:", "    one = 1"]
+    if mode == "nested":
+        return ["if one == 1:", "    for q%d in range(one):" % uid, "        try:"] + ind(calls, 3) + ["        except:", "            one = 1"]
+    raise ValueError(mode)
+
+
+def handler_lines(name, hanims, uid):
+    """animate calls that sit ONLY in except handlers (never executed on the device - the firmware raises nothing -
+    but each is a call site: state variable, start call, and one tick call per pass at the head of loop())"""
+    L, ind = [], ""
+    for i, a in enumerate(hanims):
+        # bare `except:` only (a named class becomes catch (<Class> &), which no Arduino core declares: C06's subject);
+        # the second call site sits in a handler nested in the first handler
+        L += [ind + "try:", ind + "    one = 1", ind + "except:", ind + "    " + animate_call(name, a, i % 4)]
+        ind += "    "
+    return L
+
+
 def device_script(lcds, loop_lines=None, runtime_speed=False, pre_lines=None):
-    """lcds: [{"name","cols","rows","i2c","anims":[[style,row,text,speed,loop]...]}]"""
+    """lcds: [{"name","cols","rows","i2c","anims":[[style,row,text,speed,loop]...], optional "wrap": one of WRAPS,
+    optional "handler_anims": [[style,row,text,speed,loop]...]}]"""
     L = ["from Reduino import target", "from Reduino.Displays import LCD", "from Reduino.Core import analog_read",
          'target("/dev/ttyUSB0")']
     for d in lcds:
@@ -469,14 +558,26 @@ def device_script(lcds, loop_lines=None, runtime_speed=False, pre_lines=None):
     if runtime_speed:
         L.append('spd = analog_read("A0")')
         L.append('rw = analog_read("A1")')
+    if any(d.get("wrap") or d.get("handler_anims") or d.get("via_vars") for d in lcds):
+        L.append('one = analog_read("A2")')
+    if any(d.get("via_vars") for d in lcds):
+        L += ["yes = one == 1", "no = one == 0"]
     j = 0
-    for d in lcds:
+    for uid, d in enumerate(lcds):
+        calls = []
         for a in d["anims"]:
             if runtime_speed:
-                L.append(f'{d["name"]}.animate("{a[0]}", rw + {a[1]}, {py_str(a[2])}, speed_ms=spd + {a[3] - runtime_speed}, loop={a[4]})')
+                calls.append(f'{d["name"]}.animate("{a[0]}", rw + {a[1]}, {py_str(a[2])}, speed_ms=spd + {a[3] - runtime_speed}, loop={a[4]})')
+            elif d.get("via_vars"):
+                # the text held in a str variable, the loop flag computed at run time from a pin reading
+                L.append(f'tx{uid}_{len(calls)} = {py_str(a[2])}')
+                calls.append(f'{d["name"]}.animate("{a[0]}", {a[1]}, tx{uid}_{len(calls)}, speed_ms={a[3]}, loop={"yes" if a[4] else "no"})')
             else:
-                L.append(animate_call(d["name"], a, j % 4))
+                calls.append(animate_call(d["name"], a, j % 4))
             j += 1
+        L += wrap_lines(calls, d.get("wrap"), uid)
+        if d.get("handler_anims"):
+            L += handler_lines(d["name"], d["handler_anims"], uid)
     L += list(pre_lines or [])
     L.append("while True:")
     L += ["    " + x for x in (loop_lines or ["pass"])]
@@ -486,6 +587,46 @@ def device_script(lcds, loop_lines=None, runtime_speed=False, pre_lines=None):
 LCD_GLOBAL_RE = re.compile(r"^\s*LiquidCrystal(?:_I2C)?\s+__redu_lcd_(\w+)\s*\(", re.M)
 TICK_RE = re.compile(r"__redu_lcd_tick_(\w+)\(\s*__redu_lcd_anim_(\w+?)_(\d+)\s*,")
 VAR_RE = re.compile(r"^\s*__redu_lcd_animation_state\s+__redu_lcd_anim_(\w+?)_(\d+)\s*;", re.M)
+START_RE = re.compile(r"__redu_lcd_start_(\w+)\(\s*__redu_lcd_anim_(\w+?)_(\d+)\s*,")
+# a tick call at the top level of loop() (two spaces of indentation): executed once per pass, unconditionally
+TICK_TOP_RE = re.compile(r"^  __redu_lcd_tick_(\w+)\(\s*__redu_lcd_anim_(\w+?)_(\d+)\s*,", re.M)
+
+
+def injection_problems(cpp):
+    """the clause 'the transpiler guarantees it is advanced once per loop() pass without any delay call', evaluated on
+    the emitted text for a script inside the guard (every lcd.animate call site before the main loop, none in a def):
+    every state variable started in setup() - wherever the start call sits: top level, a branch, a loop body, a try
+    body, an except handler - is a declared global and has exactly one tick call of its own style at the top level
+    of loop(); loop() contains no delay call.  -> [(what, expected, observed)]"""
+    out = []
+    i_setup, i_loop = cpp.find("void setup()"), cpp.find("void loop()")
+    if i_setup < 0 or i_loop < 0:
+        return [("emitted sketch has no setup()/loop()", "both", [i_setup, i_loop])]
+    setup_txt, loop_txt = cpp[i_setup:i_loop], cpp[i_loop:]
+    end = loop_txt.find("\n}\n")
+    if end >= 0:
+        loop_txt = loop_txt[:end + 3]
+    declared = set(VAR_RE.findall(cpp))
+    top = {}
+    for (st, n, k) in TICK_TOP_RE.findall(loop_txt):
+        top.setdefault((n, k), []).append(st)
+    seen = set()
+    for (st, n, k) in START_RE.findall(setup_txt):
+        if (n, k) in seen:
+            continue
+        seen.add((n, k))
+        var = f"__redu_lcd_anim_{n}_{k}"
+        if (n, k) not in declared:
+            out.append((f"animation state {var} is started in setup() but never declared", "a global declaration", "none"))
+        got = top.get((n, k), [])
+        if got != [st]:
+            line = next((ln.strip() for ln in setup_txt.splitlines() if var + "," in ln), "")
+            out.append((f"loop() does not advance the animation {var} (started in setup() by {line[:70]}...) exactly once per pass",
+                        [f"__redu_lcd_tick_{st}({var}, ...) once at the top level of loop()"],
+                        [f"__redu_lcd_tick_{g}({var}, ...)" for g in got] or "no tick call for it in loop()"))
+    if re.search(r"\bdelay(?:Microseconds)?\s*\(", loop_txt):
+        out.append(("loop() of a script that never sleeps contains a delay call", "no delay", "delay(...) in loop()"))
+    return out
 
 
 def unescape(s):
@@ -743,6 +884,11 @@ def gen_device_groups(ctx):
                 text = s.get("text") or mk_text(s["n"], salt=s["salt"])
                 lcds.append({"name": f"d{q:02d}", "cols": s["cols"], "rows": s["rows"], "i2c": s["i2c"],
                              "anims": [[s["style"], s["row"], text, speed, s["loop"]]]})
+                if q % 3 == 2 and (len(sketches) + q) % 2 == 0:
+                    lcds[-1]["via_vars"] = True
+                if q % 3 == 1:
+                    # the call site inside a block that runs once (if / else / elif / for / while / try / nested)
+                    lcds[-1]["wrap"] = WRAPS[1 + (len(sketches) + q // 3) % (len(WRAPS) - 1)]
                 nd = bound(s["n"], s["cols"]) + 2
                 if s["loop"]:
                     nd = min(nd, s["n"] + 3 * s["cols"] + 4, 70 if not thorough else 170)
@@ -770,6 +916,16 @@ def gen_device_groups(ctx):
                 anims.append([rng.choice(STYLES), row, mk_text(rng.choice(len_classes(cols)), salt=j + q + len(anims), spaced=rng.random() < 0.3),
                               base_speed if rt else rng.choice([0, unit, unit, 1, 3, 100, -3]), rng.random() < 0.5])
             lcds.append({"name": f"m{q:02d}", "cols": cols, "rows": rows, "i2c": rng.random() < 0.5, "anims": anims})
+            if not rt:
+                lcds[-1]["wrap"] = WRAPS[(j + q) % len(WRAPS)]
+            if q == 5 and not rt:
+                # a display whose ONLY animations sit in except handlers (they never start on the device: its rows stay
+                # blank; the tick calls must be there all the same), and one (q == 4) that has both kinds of call site
+                lcds[-1]["handler_anims"] = [a for a in anims]
+                lcds[-1]["anims"] = []
+                lcds[-1]["wrap"] = None
+            if q == 4 and not rt:
+                lcds[-1]["handler_anims"] = [[rng.choice(STYLES), anims[0][1], "ERR", unit, True], [rng.choice(STYLES), anims[0][1], "E2", 0, False]]
         nows = tick_times(kind, base_speed if rt else unit, 60, rng, cap=250)
         # half of them with a main loop that does other (non-sleeping) work: the ticks must still come once per pass
         sketches.append({"lcds": lcds, "nows": nows, "runtime_speed": base_speed if rt else False, "busy": j % 4 in (0, 3),
@@ -791,6 +947,9 @@ def run_device(ctx, stats):
         inp = "clock0 0\npass " + " ".join(str(x) for x in incs) + "\n"
         if s["runtime_speed"]:
             inp += f"ar 14 {s['runtime_speed']}\nar 15 0\n"
+        inp += "ar 16 1\n"
+        for what, exp, obs in injection_problems(t["cpp"]):
+            ctx.fail(what, {"script": src, "nows": s["nows"][:8]}, exp, obs, key="dev-tick-injected")
         jobs.append({"cpp": t["cpp"], "input": inp, "loops": len(s["nows"]), "env": {"REDU_LCD_DUMP": "1", "REDU_NO_READ_EVENTS": "1"}, "run_timeout": 120})
         live.append((s, src, t["cpp"]))
     outs = fw.run_sketches(jobs)
@@ -837,6 +996,10 @@ def run_device(ctx, stats):
         tally(stats, "dev_animations_per_display", len(case["lcd"]["anims"]))
         tally(stats, "dev_cols", case["lcd"]["cols"])
         tally(stats, "dev_wiring", "i2c" if case["lcd"]["i2c"] else "parallel")
+        tally(stats, "dev_call_site_placement", case["lcd"].get("wrap") or "top-level")
+        tally(stats, "dev_call_arguments", "text variable + run-time loop flag" if case["lcd"].get("via_vars") else "run-time speed and row" if case["runtime_speed"] else "literals")
+        if case["lcd"].get("handler_anims"):
+            tally(stats, "dev_displays_with_handler_call_sites", "only in handlers" if not case["lcd"]["anims"] else "handlers and elsewhere")
         for a in case["lcd"]["anims"]:
             tally(stats, "dev_style", a[0])
             tally(stats, "dev_loop", bool(a[4]))
@@ -935,6 +1098,256 @@ def run_injection(ctx, stats):
         stats["injection_modes"][mode] = stats["injection_modes"].get(mode, 0) + 1
 
 
+# --------------------------------------------------------------------------------------------
+# tick injection over the block structure: statement trees (Device/DLCDInject.v)
+#   tree node: ["anim", name, style] | ["other"] | ["block", kind, [body, ...], meta]
+#   kind 0 if (meta = has_else: the last body is the else body), 1 while, 2 for, 3 try (bodies[0] = try body, the rest
+#   = except handlers; meta = rotation of the handler headers)
+# --------------------------------------------------------------------------------------------
+
+POSITIONS = ["if", "elif", "else", "while", "for", "try", "exc0", "exc1"]
+EXC_HEADERS = ["except:", "except ValueError:", "except Exception as e%d:", "except Exception:"]
+
+
+def t_anim(name, style):
+    return ["anim", name, style]
+
+
+def t_place(pos, leaf, filler):
+    """a block with the statements `leaf` as the body named by `pos`; `filler()` yields the other bodies"""
+    if pos in ("if", "elif", "else"):
+        bodies = [filler(), filler(), filler()]
+        bodies[["if", "elif", "else"].index(pos)] = leaf
+        return ["block", 0, bodies, True]
+    if pos == "while":
+        return ["block", 1, [leaf], None]
+    if pos == "for":
+        return ["block", 2, [leaf], None]
+    if pos == "try":
+        return ["block", 3, [leaf, filler()], 0]
+    if pos == "exc0":
+        return ["block", 3, [filler(), leaf, filler()], 1]
+    if pos == "exc1":
+        return ["block", 3, [filler(), filler(), leaf], 2]
+    raise ValueError(pos)
+
+
+def t_nest(path, leaf, filler):
+    """leaf statements placed at the end of `path` (outermost position first)"""
+    body = leaf
+    for pos in reversed(path):
+        body = [t_place(pos, body, filler)]
+    return body
+
+
+def t_random(rng, names, depth, allow_anim=True):
+    body = []
+    for _ in range(rng.randint(1, 3)):
+        r = rng.random()
+        if depth > 0 and r < 0.5:
+            kind = rng.randrange(4)
+            if kind == 0:
+                nb = rng.randint(1, 3)
+                has_else = nb >= 2 and rng.random() < 0.6
+            elif kind == 3:
+                nb, has_else = rng.randint(2, 4), rng.randrange(4)
+            else:
+                nb, has_else = 1, None
+            body.append(["block", kind, [t_random(rng, names, depth - 1, allow_anim) for _ in range(nb)], has_else])
+        elif allow_anim and r < 0.85:
+            body.append(t_anim(rng.choice(names), rng.choice(STYLES)))
+        else:
+            body.append(["other"])
+    return body
+
+
+def t_sites(body):
+    """the (name, style) call sites in source order - the harness's own flattening, used by the oracle"""
+    out = []
+    for st in body:
+        if st[0] == "anim":
+            out.append((st[1], st[2]))
+        elif st[0] == "block":
+            for b in st[2]:
+                out += t_sites(b)
+    return out
+
+
+def t_positions(body, path=()):
+    """-> [(name, path of body kinds)] for the distribution"""
+    out = []
+    for st in body:
+        if st[0] == "anim":
+            out.append((st[1], path))
+        elif st[0] == "block":
+            for i, b in enumerate(st[2]):
+                if st[1] == 0:
+                    lab = "if" if i == 0 else "else" if st[3] and i == len(st[2]) - 1 else "elif"
+                elif st[1] == 3:
+                    lab = "try" if i == 0 else "except"
+                else:
+                    lab = ["", "while", "for"][st[1]]
+                out += t_positions(b, path + (lab,))
+    return out
+
+
+def t_wire(body, nid):
+    out = []
+    for st in body:
+        if st[0] == "anim":
+            out.append([0, nid[st[1]], CODE[st[2]]])
+        elif st[0] == "other":
+            out.append([1])
+        else:
+            out.append([2, st[1], [t_wire(b, nid) for b in st[2]]])
+    return out
+
+
+def t_render(body, ind, out, ctr):
+    for st in body:
+        if st[0] == "anim":
+            ctr[0] += 1
+            out.append(f'{ind}{st[1]}.animate("{st[2]}", {ctr[0] % 2}, "T{ctr[0]}", speed_ms=0, loop=True)')
+        elif st[0] == "other":
+            out.append(f"{ind}k = k + 1")
+        else:
+            kind, bodies, meta = st[1], st[2], st[3]
+            ctr[1] += 1
+            uid = ctr[1]
+            for i, b in enumerate(bodies):
+                if kind == 0:
+                    head = "if k == 0:" if i == 0 else "else:" if meta and i == len(bodies) - 1 else f"elif k == {i}:"
+                elif kind == 1:
+                    head = "while k < 3:"
+                elif kind == 2:
+                    head = f"for q{uid} in range(2):"
+                else:
+                    head = "try:" if i == 0 else EXC_HEADERS[(meta + i - 1) % len(EXC_HEADERS)].replace("%d", str(uid * 10 + i))
+                out.append(ind + head)
+                t_render(b if b else [["other"]], ind + "    ", out, ctr)
+                if kind == 1:
+                    out.append(ind + "    k = k + 1")
+
+
+def tree_script(setup, loop, names, noloop=False):
+    L = ["from Reduino import target", "from Reduino.Displays import LCD", 'target("/dev/ttyUSB0")']
+    for n in names:
+        L.append(f"{n} = LCD(rs=12, en=11, d4=5, d5=4, d6=3, d7=2, cols=8, rows=2)")
+    L.append("k = 0")
+    ctr = [0, 0]
+    t_render(setup, "", L, ctr)
+    if noloop:
+        return "\n".join(L) + "\n"
+    L.append("while True:")
+    t_render(loop if loop else [["other"]], "    ", L, ctr)
+    return "\n".join(L) + "\n"
+
+
+def gen_tree_cases(ctx):
+    """-> [(setup_tree, loop_tree, tag)].  Systematic part: a display `st` whose ONLY call site sits at the end of every
+    path of body kinds of length 1 and 2 over {if, elif, else, while, for, try body, first handler, second handler},
+    with the rest of the script rotating over: nothing else animates / the main display `ma` animates at top level /
+    `ma` animates in the sibling bodies of every block on the path.  Then paths of length 3 (seeded sample), two
+    call sites of one display in different handlers, seeded random trees, and trees whose main loop holds nested call
+    sites (outside the guard: correspondence with the model only)."""
+    rng = ctx.rng
+    thorough = ctx.tier == "thorough"
+    cases = []
+    paths = [(a,) for a in POSITIONS] + [(a, b) for a in POSITIONS for b in POSITIONS]
+    triple = [(a, b, c) for a in POSITIONS for b in POSITIONS for c in POSITIONS]
+    rng.shuffle(triple)
+    paths += triple if thorough else triple[:24]
+    for j, path in enumerate(paths):
+        style = STYLES[j % 4]
+        variant = j % 3
+        sib = [0]
+        def filler():
+            sib[0] += 1
+            if variant == 2:
+                return [t_anim("ma", STYLES[(j + sib[0]) % 4])]
+            return [["other"]]
+        setup = t_nest(list(path), [t_anim("st", style)] + ([["other"]] if j % 2 else []), filler)
+        if variant == 1:
+            setup = [t_anim("ma", STYLES[(j + 1) % 4])] + setup
+        cases.append((setup, [], "path:" + ">".join(path)))
+    # one display, call sites in two different handlers / handler and try body / handler and top level
+    for j, (pa, pb) in enumerate([("exc0", "exc1"), ("try", "exc0"), ("exc1", None), ("exc0", "else"), ("for", "exc1")]):
+        f = lambda: [["other"]]
+        setup = t_nest([pa], [t_anim("st", STYLES[j % 4])], f)
+        setup += [t_anim("st", STYLES[(j + 1) % 4])] if pb is None else t_nest([pb], [t_anim("st", STYLES[(j + 2) % 4])], f)
+        cases.append((setup, [], "two-sites"))
+    names = ["ma", "st", "zz"]
+    for j in range(60 if thorough else 20):
+        cases.append((t_random(rng, names, 3), [], "random"))
+    for j in range(16 if thorough else 6):
+        cases.append((t_random(rng, names, 2), t_random(rng, names, 2), "random:loop-sites"))
+    for j in range(6 if thorough else 2):
+        cases.append((t_random(rng, names, 2), [], "random:noloop"))
+    return cases
+
+
+def run_injection_trees(ctx, stats):
+    names = ["ma", "st", "zz"]
+    nid = {n: i for i, n in enumerate(names)}
+    cases = gen_tree_cases(ctx)
+    srcs = [tree_script(a, b, names, noloop=tag.endswith("noloop")) for a, b, tag in cases]
+    tr = fw.transpile_many(srcs)
+    model = ctx.model([[4, t_wire(a, nid), t_wire(b, nid)] for a, b, _ in cases]) if ctx.exe else [None] * len(cases)
+    compile_jobs = []
+    for (a, b, tag), src, t, m in zip(cases, srcs, tr, model):
+        in_guard = not t_sites(b)
+        stats["tree_shapes"] = stats.get("tree_shapes", 0) + 1
+        tally(stats, "tree_tags", tag.split(":")[0] + (":" + tag.split(":")[1] if tag.startswith("random:") else ""))
+        for name, path in t_positions(a):
+            tally(stats, "tree_call_site_depth", len(path))
+            tally(stats, "tree_call_site_innermost_body", path[-1] if path else "top-level")
+        by_name = {}
+        for name, path in t_positions(a):
+            by_name.setdefault(name, []).append(path)
+        for name, ps in by_name.items():
+            if all(p and "except" in p for p in ps):
+                stats["tree_displays_animated_only_inside_handlers"] = stats.get("tree_displays_animated_only_inside_handlers", 0) + 1
+        if not t["ok"]:
+            if in_guard:
+                ctx.fail("transpiler rejected a script with lcd.animate before the main loop", {"script": src}, "C++", t, key="dev-transpile")
+            continue
+        cpp = t["cpp"]
+        loop_txt = cpp[cpp.find("void loop()"):]
+        ticks = [[nid[n], int(k), CODE[st]] for (st, n, k) in TICK_RE.findall(loop_txt)]
+        decl = sorted([nid[n], int(k)] for (n, k) in VAR_RE.findall(cpp))
+        if in_guard:
+            # the property itself, on the emitted text
+            probs = injection_problems(cpp)
+            for what, exp, obs in probs[:1]:
+                ctx.fail(what, {"script": src}, exp, obs, key="dev-tick-injected")
+            want = sorted([nid[n], CODE[s_]] for n, s_ in t_sites(a))
+            got = sorted([t_[0], t_[2]] for t_ in ticks)
+            if want != got and not probs:
+                ctx.fail("loop() does not tick every animation started before the main loop exactly once (call sites nested in blocks)",
+                         {"script": src}, want, got, key="dev-tick-injected")
+            if len(compile_jobs) < (12 if ctx.tier == "thorough" else 4) and tag.startswith("random") and "except Exception" not in src and "except ValueError" not in src:
+                compile_jobs.append((src, cpp))
+        if m is not None:
+            if m[0] != 0:
+                ctx.disagree("tick injection (trees): model could not decode the case (harness bug)", {"script": src}, m, None)
+            elif [list(x) for x in m[1]] != ticks:
+                ctx.disagree("tick injection (trees): emitted tick calls vs the parser/emitter walk model", {"script": src}, [list(x) for x in m[1]], ticks)
+            elif sorted([x[0], x[1]] for x in m[2]) != decl:
+                ctx.disagree("tick injection (trees): declared animation state variables vs the emitter walk model", {"script": src}, m[2], decl)
+    # a few of the nested scripts (bare `except:` only - named exception classes are C06's subject) really compile and run
+    if compile_jobs:
+        outs = fw.run_sketches([{"cpp": cpp, "input": "clock0 0\npass 10 10 10\n", "loops": 3, "env": {"REDU_LCD_DUMP": "1"}, "run_timeout": 60}
+                                for _, cpp in compile_jobs])
+        for (src, _), o in zip(compile_jobs, outs):
+            stats["tree_sketches_compiled_and_run"] = stats.get("tree_sketches_compiled_and_run", 0) + 1
+            if not o["compiled"] or o["rc"] != 0:
+                ctx.fail("emitted sketch with nested lcd.animate call sites does not compile / crashed", {"script": src}, "runs",
+                         {"log": o["compile_log"][-800:], "rc": o["rc"], "stderr": o["stderr"][-400:]}, key="dev-compile")
+            elif any(e.startswith(("D ", "DU ")) for e in o["events"]):
+                ctx.fail("delay()/delayMicroseconds() called although the script never sleeps", {"script": src}, "no D/DU event",
+                         [e for e in o["events"] if e.startswith(("D ", "DU "))][:3], key="dev-delay")
+
+
 def run_schedule_spec(ctx, stats, hcases, dindex):
     """the oracle's own notion of a due tick ([ideal_due], used by the rate-limit / due-skipped relations) against the
     extracted specification schedule [due_flags] of coq/Host/LCDAnim.v, which C18_step_schedule_device/_host prove to
@@ -1017,7 +1430,9 @@ def replay(data):
             print("REPRODUCED: the transpiler rejects the script", t)
             return 1
         incs = [nows[0]] + [b - a for a, b in zip(nows, nows[1:])]
-        inp = "clock0 0\npass " + " ".join(map(str, incs)) + "\n" + (f"ar 14 {rts}\nar 15 0\n" if rts else "")
+        inp = "clock0 0\npass " + " ".join(map(str, incs)) + "\n" + (f"ar 14 {rts}\nar 15 0\n" if rts else "") + "ar 16 1\n"
+        for what, exp, obs in injection_problems(t["cpp"]):
+            col.fail(what, case, exp, obs, key="dev-tick-injected")
         o = fw.run_sketches([{"cpp": t["cpp"], "input": inp, "loops": len(nows),
                               "env": {"REDU_LCD_DUMP": "1", "REDU_NO_READ_EVENTS": "1"}, "run_timeout": 120}])[0]
         if not o["compiled"] or o["rc"] != 0:
@@ -1041,22 +1456,22 @@ def replay(data):
         if not t["ok"]:
             print("REPRODUCED: the transpiler rejects the script", t)
             return 1
+        print("replay: script\n" + case["script"])
+        for what, exp, obs in injection_problems(t["cpp"]):
+            col.fail(what, case, exp, obs, key="dev-tick-injected")
         nows = case.get("nows") or [10, 20, 30, 40, 50]
         incs = [nows[0]] + [b - a for a, b in zip(nows, nows[1:])]
-        o = fw.run_sketches([{"cpp": t["cpp"], "input": "clock0 0\npass " + " ".join(map(str, incs)) + "\n", "loops": len(nows),
-                              "env": {"REDU_LCD_DUMP": "1", "REDU_NO_READ_EVENTS": "1"}, "run_timeout": 120}])[0]
-        if not o["compiled"] or o["rc"] != 0:
-            print("REPRODUCED: the emitted sketch does not compile / crashed", o["compile_log"][-600:], o["stderr"][-300:])
-            return 1
-        cpp = t["cpp"]
-        loop_txt = cpp[cpp.find("void loop()"):]
-        started = len(re.findall(r"__redu_lcd_start_\w+\(", cpp[cpp.find("void setup()"):cpp.find("void loop()")]))
-        ticked = len(TICK_RE.findall(loop_txt))
-        if started != ticked:
-            col.fail("loop() does not tick every animation started before the main loop exactly once", case, started, ticked, key="dev-tick-injected")
-        if any(e.startswith(("D ", "DU ")) for e in o["events"]):
-            col.fail("delay()/delayMicroseconds() called although the script never sleeps", case, "no D/DU event",
-                     [e for e in o["events"] if e.startswith(("D ", "DU "))][:3], key="dev-delay")
+        # `except <Class>:` becomes catch (<Class> &), which no Arduino core declares (C06's subject): such a script is
+        # judged on the emitted text only; every other one is also compiled and run
+        if not re.search(r"^\s*except\s+\w", case["script"], re.M):
+            o = fw.run_sketches([{"cpp": t["cpp"], "input": "clock0 0\npass " + " ".join(map(str, incs)) + "\nar 16 1\n", "loops": len(nows),
+                                  "env": {"REDU_LCD_DUMP": "1", "REDU_NO_READ_EVENTS": "1"}, "run_timeout": 120}])[0]
+            if not o["compiled"] or o["rc"] != 0:
+                print("REPRODUCED: the emitted sketch does not compile / crashed", o["compile_log"][-600:], o["stderr"][-300:])
+                return 1
+            if any(e.startswith(("D ", "DU ")) for e in o["events"]):
+                col.fail("delay()/delayMicroseconds() called although the script never sleeps", case, "no D/DU event",
+                         [e for e in o["events"] if e.startswith(("D ", "DU "))][:3], key="dev-delay")
     else:
         print("replay: no replayable case in this file (correspondence / proof failure: see the fields above)")
         return 0
@@ -1069,9 +1484,11 @@ def replay(data):
 
 def run(ctx: C.Ctx):
     stats = {}
+    # the text-level injection checks first: their scripts are the smallest, so the first replay of a class is minimal
+    run_injection(ctx, stats)
+    run_injection_trees(ctx, stats)
     hcases, h_nt = run_host(ctx, stats)
     dindex, d_nt = run_device(ctx, stats)
-    run_injection(ctx, stats)
     run_schedule_spec(ctx, stats, hcases, dindex)
     for f in ctx.findings:
         if f.get("kind") == "fixed":
@@ -1082,7 +1499,7 @@ def run(ctx: C.Ctx):
         except Exception as e:  # noqa
             ctx.notes.append(f"replay of {f['id']} failed to run: {e}")
     ctx.coverage.update({
-        "evaluations": len(hcases) + len(dindex) + stats.get("injection_shapes", 0),
+        "evaluations": len(hcases) + len(dindex) + stats.get("injection_shapes", 0) + stats.get("tree_shapes", 0),
         "distinct_nontrivial": h_nt + d_nt,
         "rule": "host: (4 styles x cols in {1,2,3,8,16,20,40} x len in {0,1,cols-1,cols,cols+1,2cols} x loop x speed in {0,1,100} x tick schedule in {ontime,early,late,equal,burst}) "
                 "(quick: two speed/schedule picks per cell rotating over all 15 pairs, thorough: all, plus every other width 1..40 with two picks per cell), plus seeded random single-animation cases "
@@ -1092,11 +1509,20 @@ def run(ctx: C.Ctx):
                 "schedule 'burst' = late passes (2..5 periods) each followed by several quick passes (0, 1, period/4 ... apart) and then one exactly on time; 'mixed' draws gaps from {0,1,p-1,p,p+1,2p,p/2,3p+1,7p+3}; "
                 "tick histories are long enough to contain more than len+2*cols+2 due ticks (non-looping). The per-animation relations (rate limit over all pairs of steps, no due pass skipped, no frame after a skipped due pass, "
                 "termination bound, one frame per step) are evaluated for every animation that has its row to itself (device) / for every animation (host). "
+                "Call-site placement: every third display of a grid sketch and every display of the multi sketches has its animate calls inside a block that runs once (if / else / elif / for / while / try / if>for>try), "
+                "two displays per multi sketch have call sites inside (nested) except handlers (one of them only there: it never starts, its rows must stay blank, its tick calls must exist); on every transpiled sketch the "
+                "emitted text is checked: each state variable started in setup() is declared and has exactly one tick call of its style at the top level of loop(). "
+                "Tick injection trees: a display whose only call site ends every path of length 1 and 2 (and a seeded sample of length 3; thorough: all 512) over the body kinds {if, elif, else, while, for, try body, first handler, second handler}, "
+                "the rest of the script rotating over (nothing else animates / main display at top level / main display in every sibling body), two call sites of one display in different handlers, seeded random trees of depth <= 3, "
+                "trees with nested call sites inside the main loop (correspondence only) and scripts without a main loop; handler headers rotate over `except:`, `except ValueError:`, `except Exception as e:`, `except Exception:`. "
+                "Host, several displays: one in nine grid cases and half of the multi cases run next to a second display created in the same process (same geometry/style/row/registry key in the grid), whose animations start before and after the main one's and which is ticked between the main ticks; "
+                "any change of one display across an operation on the other is a failure. "
                 "Non-trivial = at least one frame was drawn by a tick; distinct by (geometry, animations, schedule prefix).",
         "samples": [hcases[0], hcases[len(hcases) // 2], dindex[0][0] if dindex else None],
         "distribution": stats,
         "guard": "host: cols, rows >= 1, tick times positive and non-decreasing; device: additionally 0 <= row < rows, text without control characters, quotes or backslashes (non-ASCII text = its UTF-8 bytes; speed_ms may be negative: cast to unsigned long), "
-                 "1 <= cols <= 40, lcd.animate calls placed before `while True:` (outside: F-C18-animate-in-loop-never-ticked)",
+                 "1 <= cols <= 40, lcd.animate calls placed before `while True:` at any block depth (outside: F-C18-animate-in-loop-never-ticked) and not inside a def (F-C18-animate-in-function-undeclared); "
+                 "sketches that are compiled use bare `except:` handlers only (a named exception class becomes catch (<Class> &), undeclared on any core: C06)",
         "unmodelled": ["device: row outside the display (library clamps the row), millis() wrap-around, speed_ms >= 2^W (wraps in the unsigned cast)",
                        "device: DDRAM addressing beyond 40 columns / 4-row interleaving (shown unreachable by C18_frame_geometry_device)",
                        "host: non-int now_ms / speed_ms, LCD.begin() during an animation"],
